@@ -53,8 +53,9 @@ def c19_projection(step_out):
                 sc = l.split("| scans: ")[1].split(" |")[0].split()
                 if "preds:" in l:
                     kind, count, bound = "allpred", len(sc), v + e
-                elif " pred: " in l and len(sc) == 1 and "dist:" in l and "inf" in l or ("pops" in l):
-                    kind, count, bound = "dijkstra", int(sc[0]), v + e + 1
+                elif len(sc) == 1 and sc[0].startswith("n="):
+                    # Dijkstra prints the number of scans (`n=<count>`), the searches by hop count the scanned vertices
+                    kind, count, bound = "dijkstra", int(sc[0][2:]), v + e + 1
                 else:
                     kind, count, bound = "bfs", len(sc), v
                 out.append(f"{kind} scans_within_bound={count <= bound}")
@@ -79,7 +80,10 @@ def compare_history(impl_lines, model_lines, proj):
         if a[1] != b[1] or a[0] != b[0]:
             pa, pb = proj(a[1]), proj(b[1])
             crashed = k >= len(si)
-            if pa != pb or crashed:
+            # C19's relation (scan count within the bound) is decided on the implementation's own output: the
+            # model replays the implementation's pop sequence, so its count is the same when that sequence is not
+            # one the model can produce (it then adds a T line) -- the excess is a violation all the same
+            if pa != pb or crashed or any(isinstance(x, str) and x.endswith("scans_within_bound=False") for x in pa):
                 return dict(kind="violation", step=k, op=b[0] if k < len(sm) else a[0], impl=a[1], model=b[1],
                             pimpl=pa, pmodel=pb)
             if first_div is None:
